@@ -49,10 +49,10 @@ Inductive event : Type :=
 | EEffect (p : pid) (e : effect) (a : answer)   (* Event::EffectRequest + what the backend answers if asked *)
 | EComplete (p : pid) (res : option val)        (* one item of `process_completions()` *)
 | ESpawn (caller : pid) (vals : list val)       (* Event::SpawnAction: captures ++ [argument] *)
-| ESend (sender target : pid) (v : val)         (* Event::DeliverAction. The event carries NO sender:
-                                                   `sender` is a ghost (who executed the Send instruction),
-                                                   never read by `step` *)
+| ESend (sender target : pid) (v : val)         (* Event::DeliverAction (it names the sender) *)
 | EResults (done : list pid)                    (* Event::ProcessResults: the pids whose result is Some *)
+| EWatchReport (p : pid)                        (* Event::ProcessTerminated: the worker's answer to a
+                                                   Command::WatchProcess once p has terminated *)
 | ETerminate (p : pid)                          (* p completed/failed on its worker *)
 | EOther.                                       (* AwaitAction, ResultResponse, ...: no effect on ownership *)
 
@@ -93,28 +93,38 @@ Fixpoint remove (r : rid) (m : omap) : omap :=
   end.
 
 Record state : Type := mkState {
-  owner : omap;            (* environment.rs:400 resource_ownership *)
+  owner : omap;            (* environment.rs resource_ownership *)
   dead : list pid;         (* processes that have terminated (ETerminate seen) *)
   pending : list pid;      (* processes with an async effect outstanding in the backend *)
-  next_pid : pid;          (* environment.rs:396 next_process_id *)
-  log : list call          (* every backend call so far, oldest first *)
+  next_pid : pid;          (* environment.rs next_process_id *)
+  log : list call;         (* every backend call so far, oldest first *)
+  watched : list pid       (* one entry per Command::WatchProcess sent and not yet answered by an
+                              Event::ProcessTerminated (worker.rs `watched` + commands in flight) *)
 }.
 
 (* after `start_process` of the root: process 0 exists, next id is 1 *)
-Definition init : state := mkState [] [] [] 1 [].
+Definition init : state := mkState [] [] [] 1 [] [].
 
-(* environment.rs:1238 transfer_resource_ownership — recursive through tuples and closures; only a
-   resource that is currently registered changes hands (a stale handle is not registered again) *)
-Fixpoint transfer (v : val) (new_owner : pid) (m : omap) : omap :=
+Definition owner_is (g : pid) (o : option pid) : bool :=
+  match o with
+  | Some q => N.eqb q g
+  | None => false
+  end.
+
+(* environment.rs give_resources(giver, value, new_owner) — recursive through tuples and closures:
+   a resource moves only if `giver` is its owner (then transfer_resource_ownership re-assigns the
+   registered id); the handle of a resource somebody else owns, or of an id that is not registered,
+   moves nothing *)
+Fixpoint give (giver : pid) (v : val) (new_owner : pid) (m : omap) : omap :=
   match v with
-  | VRes r => reassign r new_owner m
-  | VTuple fields => fold_left (fun m f => transfer f new_owner m) fields m
-  | VFun captures => fold_left (fun m c => transfer c new_owner m) captures m
+  | VRes r => if owner_is giver (lookup r m) then reassign r new_owner m else m
+  | VTuple fields => fold_left (fun m f => give giver f new_owner m) fields m
+  | VFun captures => fold_left (fun m c => give giver c new_owner m) captures m
   | VOther => m
   end.
 
-Definition transfer_all (vs : list val) (new_owner : pid) (m : omap) : omap :=
-  fold_left (fun m v => transfer v new_owner m) vs m.
+Definition give_all (giver : pid) (vs : list val) (new_owner : pid) (m : omap) : omap :=
+  fold_left (fun m v => give giver v new_owner m) vs m.
 
 (* the resource ids a value contains, in traversal order *)
 Fixpoint rids_of (v : val) : list rid :=
@@ -125,14 +135,24 @@ Fixpoint rids_of (v : val) : list rid :=
   | VOther => []
   end.
 
-(* environment.rs:1767 handle_effect_completion: a result that IS a resource registers ownership
-   (a resource nested inside a result tuple would not; no builtin returns one) *)
+(* the boolean give_resources returns ("did any resource change hands"), specified on the map before
+   the call: some carried id is owned by the giver. (The code accumulates it along the traversal;
+   the step-by-step correspondence compares the WatchProcess commands it decides.) *)
+Definition gives_any (giver : pid) (vs : list val) (m : omap) : bool :=
+  existsb (fun r => owner_is giver (lookup r m)) (flat_map rids_of vs).
+
+(* environment.rs watch_resource_owner: Command::WatchProcess to the owner's worker *)
+Definition watch (p : pid) (s : state) : state :=
+  mkState (owner s) (dead s) (pending s) (next_pid s) (log s) (p :: watched s).
+
+(* environment.rs handle_effect_completion: a result that IS a resource registers ownership and the
+   new owner is watched (a resource nested inside a result tuple would not; no builtin returns one) *)
 Definition handle_effect_completion (s : state) (p : pid) (res : option val) : state :=
-  let own' := match res with
-              | Some (VRes r) => insert r p (owner s)
-              | _ => owner s
-              end in
-  mkState own' (dead s) (pending s) (next_pid s) (log s).
+  match res with
+  | Some (VRes r) =>
+      watch p (mkState (insert r p (owner s)) (dead s) (pending s) (next_pid s) (log s) (watched s))
+  | _ => s
+  end.
 
 Fixpoint remove_pid (p : pid) (l : list pid) : list pid :=
   match l with
@@ -140,46 +160,51 @@ Fixpoint remove_pid (p : pid) (l : list pid) : list pid :=
   | q :: t => if N.eqb p q then t else q :: remove_pid p t
   end.
 
-(* environment.rs:1694 handle_effect_request *)
+(* environment.rs handle_effect_request *)
 Definition handle_effect_request (s : state) (p : pid) (e : effect) (a : answer) : state :=
   let denied :=
     match resource_id e with
     | Some r => match lookup r (owner s) with
-                | Some o => negb (N.eqb o p)      (* :1703-1714 report_effect_error, no backend call *)
+                | Some o => negb (N.eqb o p)      (* report_effect_error, no backend call *)
                 | None => false                   (* id not in the map: the check is skipped *)
                 end
     | None => false
     end in
   if denied then s
   else
-    (* :1726 effect_backend.execute(process_id, effect) *)
-    let s1 := mkState (owner s) (dead s) (pending s) (next_pid s) (log s ++ [CExec p e]) in
+    (* effect_backend.execute(process_id, effect) *)
+    let s1 := mkState (owner s) (dead s) (pending s) (next_pid s) (log s ++ [CExec p e]) (watched s) in
     match a with
-    | ANow res => handle_effect_completion s1 p res           (* :1727 immediate completion *)
-    | AAsync => mkState (owner s1) (dead s1) (p :: pending s1) (next_pid s1) (log s1)
-    | AFail => s1                                             (* :1734 report_effect_error *)
+    | ANow res => handle_effect_completion s1 p res           (* immediate completion *)
+    | AAsync => mkState (owner s1) (dead s1) (p :: pending s1) (next_pid s1) (log s1) (watched s1)
+    | AFail => s1                                             (* report_effect_error *)
     end.
 
-(* environment.rs:1172 handle_spawn: allocate the pid, transfer captures then argument *)
+(* environment.rs handle_spawn: allocate the pid, give the caller's resources in captures then
+   argument to the child, watch the child if anything moved *)
 Definition handle_spawn (s : state) (caller : pid) (vals : list val) : state :=
   let new_pid := next_pid s in
-  mkState (transfer_all vals new_pid (owner s)) (dead s) (pending s) (N.succ new_pid) (log s).
+  let s' := mkState (give_all caller vals new_pid (owner s)) (dead s) (pending s) (N.succ new_pid)
+                    (log s) (watched s) in
+  if gives_any caller vals (owner s) then watch new_pid s' else s'.
 
-(* environment.rs:1257 handle_deliver *)
-Definition handle_deliver (s : state) (target : pid) (v : val) : state :=
-  mkState (transfer v target (owner s)) (dead s) (pending s) (next_pid s) (log s).
+(* environment.rs handle_deliver *)
+Definition handle_deliver (s : state) (sender target : pid) (v : val) : state :=
+  let s' := mkState (give sender v target (owner s)) (dead s) (pending s) (next_pid s) (log s)
+                    (watched s) in
+  if gives_any sender [v] (owner s) then watch target s' else s'.
 
 (* the ids owned by p, in map order *)
 Definition owned_by (p : pid) (m : omap) : list rid :=
   map fst (filter (fun rp => N.eqb (snd rp) p) m).
 
-(* environment.rs:1804 cleanup_process_resources: close each resource of p, drop it from the map *)
+(* environment.rs cleanup_process_resources: close each resource of p, drop it from the map *)
 Definition cleanup (s : state) (p : pid) : state :=
   let rs := owned_by p (owner s) in
   mkState (fold_left (fun m r => remove r m) rs (owner s)) (dead s) (pending s) (next_pid s)
-          (log s ++ map CClose rs).
+          (log s ++ map CClose rs) (watched s).
 
-(* environment.rs:1104 handle_process_results: cleanup for every result that is Some *)
+(* environment.rs handle_process_results: cleanup for every result that is Some *)
 Definition handle_process_results (s : state) (done : list pid) : state :=
   fold_left cleanup done s.
 
@@ -188,11 +213,14 @@ Definition step (s : state) (e : event) : state :=
   | EEffect p eff a => handle_effect_request s p eff a
   | EComplete p res =>
       let s' := handle_effect_completion s p res in
-      mkState (owner s') (dead s') (remove_pid p (pending s')) (next_pid s') (log s')
+      mkState (owner s') (dead s') (remove_pid p (pending s')) (next_pid s') (log s') (watched s')
   | ESpawn caller vals => handle_spawn s caller vals
-  | ESend _ target v => handle_deliver s target v
+  | ESend sender target v => handle_deliver s sender target v
   | EResults done => handle_process_results s done
-  | ETerminate p => mkState (owner s) (p :: dead s) (pending s) (next_pid s) (log s)
+  | EWatchReport p =>                      (* handle_event: cleanup_process_resources(process_id) *)
+      let s' := cleanup s p in
+      mkState (owner s') (dead s') (pending s') (next_pid s') (log s') (remove_pid p (watched s'))
+  | ETerminate p => mkState (owner s) (p :: dead s) (pending s) (next_pid s) (log s) (watched s)
   | EOther => s
   end.
 
@@ -205,8 +233,10 @@ Definition new_calls (s : state) (e : event) : list call :=
 Definition closes (l : list call) : list rid :=
   flat_map (fun c => match c with CClose r => [r] | CExec _ _ => [] end) l.
 
-(* nothing outstanding in the backend *)
-Definition quiescent (s : state) : Prop := pending s = [].
+(* nothing outstanding: no async effect in the backend, and no watched process that has terminated
+   (its worker would still send Event::ProcessTerminated) *)
+Definition quiescent (s : state) : Prop :=
+  pending s = [] /\ forall p, In p (watched s) -> ~ In p (dead s).
 
 (* ------------------------------------------------------------------ classes of histories
    Executable monitors over a history (mirrored by the checker's oracles, vplib/props/c14.py): the
@@ -249,11 +279,12 @@ Fixpoint anyb (bad : state -> event -> bool) (s : state) (h : list event) : bool
   | e :: t => bad s e || anyb bad (step s e) t
   end.
 
-(* a ProcessResults event lists a process that has not terminated (the worker never does this:
+(* a ProcessResults / ProcessTerminated event names a process that has not terminated (the worker never does this:
    worker.rs query_and_await / check_completed_processes report a result only when it is set) *)
 Definition early_reportb (s : state) (e : event) : bool :=
   match e with
   | EResults done => negb (forallb (fun p => memb p (dead s)) done)
+  | EWatchReport p => negb (memb p (dead s))
   | _ => false
   end.
 Definition reports_only_terminated (h : list event) : Prop := anyb early_reportb init h = false.
@@ -276,45 +307,18 @@ Definition KnownF47 (h : list event) : Prop := anyb stale_useb init h = true.
    repair of F48 such a transfer registers nothing (statistic only) *)
 Definition stale_transferb (s : state) (e : event) : bool := existsb (absentb s) (transferred e).
 
-(* F49: a send/spawn by process q carrying an id owned by somebody else *)
+(* who hands the values of a send/spawn over *)
 Definition initiator (e : event) : option pid :=
   match e with
   | ESend sender _ _ => Some sender
   | ESpawn caller _ => Some caller
   | _ => None
   end.
-Definition foreign_transferb (s : state) (e : event) : bool :=
-  match initiator e with
-  | Some q => existsb (fun r => match lookup r (owner s) with
-                                | Some o => negb (N.eqb o q)
-                                | None => false
-                                end) (transferred e)
-  | None => false
-  end.
-Definition KnownF49 (h : list event) : Prop := anyb foreign_transferb init h = true.
 
-(* F10: p was never reported to the environment, or r was given to p after a report *)
+(* the processes whose termination e tells the environment of *)
 Definition reportsb (p : pid) (e : event) : bool :=
   match e with
   | EResults done => memb p done
+  | EWatchReport q => N.eqb q p
   | _ => false
   end.
-
-(* e, handled in state s, can make p the owner of r *)
-Definition givesb (s : state) (e : event) (p : pid) (r : rid) : bool :=
-  match e with
-  | ESend _ t _ => N.eqb t p && memb r (transferred e)
-  | ESpawn _ _ => N.eqb (next_pid s) p && memb r (transferred e)
-  | EEffect q _ _ | EComplete q _ => N.eqb q p && memb r (issued_by e)
-  | _ => false
-  end.
-
-Fixpoint f10_scan (p : pid) (r : rid) (s : state) (reported given : bool) (h : list event) : bool * bool :=
-  match h with
-  | [] => (reported, given)
-  | e :: t => f10_scan p r (step s e) (reported || reportsb p e)
-                       (given || (reported && givesb s e p r)) t
-  end.
-
-Definition KnownF10 (h : list event) (p : pid) (r : rid) : Prop :=
-  fst (f10_scan p r init false false h) = false \/ snd (f10_scan p r init false false h) = true.
